@@ -141,6 +141,8 @@ def operands(rng):
 
 
 EXPONENTS = [-3, -2, -1, 0, 1, 2, 3, 4, 2.0, -1.0, 0.0, 3.0, 0.5, -1.5, 2.000001, 1j, 2 + 0j, 1 + 1j]
+# one-element arrays are treated as numbers by the library (R8): the negative-power switch must still apply to them
+ONE_ELEMENT_EXPONENTS = [np.array(-1), np.array([-2]), np.array([[-1.0]]), np.array([2]), np.array(3.0)]
 
 
 def to_lib(x):
@@ -266,6 +268,25 @@ def run_raw(ctx):
         ctx.count('raw_ops')
         ctx.count('reflected_ops')
         judge(ctx, 'raw_rpow', '^', e, a, out, e, la, e, a.copy())
+    # one-element array exponents (square matrices only): same verdict as the number they carry
+    from mitxgraders.helpers.calc import MathArray
+    squares = [p for p in pool if isinstance(p, np.ndarray) and p.ndim == 2 and p.shape[0] == p.shape[1]]
+    for idx, (a, ea) in enumerate(itertools.product(squares, ONE_ELEMENT_EXPONENTS)):
+        if not ctx.mine(idx):
+            continue
+        e = float(ea.reshape(-1)[0])
+        for negpow in (True, False):
+            la, le = to_lib(a), MathArray(ea.copy())
+
+            def do():
+                with MathArray.enable_negative_powers(negpow):
+                    return la ** le
+            out = lib.call(ctx, do)
+            ctx.ev()
+            ctx.count('raw_ops')
+            ctx.count('one_element_exponent_ops')
+            judge(ctx, 'raw_pow_one_element_exponent', '^', a, e, out, la, e, a.copy(), e, negpow=negpow,
+                  extra={'exponent_object': 'MathArray%r' % (ea.tolist(),)})
     ctx.subspace('operand pairs x 5 operators x {binary, in-place} (raw route)', n, True)
 
 
@@ -332,6 +353,9 @@ def run_strings(ctx):
         ('u*2*v', np.dot(u * 2, v)), ('M*u*v', np.dot(np.dot(variables['M'].view(np.ndarray), u), v)),
         ('u*v*M', np.dot(u, v) * np.asarray(variables['M'])), ('u*v', np.dot(u, v)),
         ('[1,2,3]*[1,1,1]*[2,2,2]', 'error'), ('u*v+w', 'error'), ('u*v*(w*w)', np.dot(u, v) * np.dot(w, w)),
+        ('u*v*M*w', 'error'), ('u*M*v*M*w', 'error'), ('u*v*2*M*w', 'error'), ('u*v*M*w*u', 'error'), ('M*u*v*w', 'error'),
+        ('u*v*M', np.dot(u, v) * np.asarray(variables['M'])), ('(u*v)*M*w', np.dot(u, v) * np.dot(np.asarray(variables['M']), w)),
+        ('u*M*w', np.dot(np.dot(u, np.asarray(variables['M'])), w)),
     ]
     for s, want in cases:
         out = lib.call(ctx, lambda: evaluator(s, variables, DEFAULT_FUNCTIONS, {'%': 0.01})[0])
@@ -363,7 +387,8 @@ def run_grader(ctx):
         ctx.seed_case('negpow', i)
         g = MatrixGrader(answers='A', variables=['A'], sample_from={'A': RealMatrices(shape=[2, 2])},
                          negative_powers=negpow, max_array_dim=2)
-        sub = rng.choice(['(A^-1)^-1', 'A^-1*A*A', 'A^(-1)*A^2', 'A*A^-2*A^2', '[[1,2],[3,4]]^-1*[[1,2],[3,4]]*A'])
+        sub = rng.choice(['(A^-1)^-1', 'A^-1*A*A', 'A^(-1)*A^2', 'A*A^-2*A^2', '[[1,2],[3,4]]^-1*[[1,2],[3,4]]*A',
+                          'A^[-1]*A*A', 'A^-[1]*A^2', 'A^[[-1]]*A*A', 'A^(0-1)*A^2', 'A^(-[1]*[1])*A^2'])
         out = lib.call(ctx, g, None, sub)
         ctx.ev()
         wit = {'negative_powers': negpow, 'submission': sub, 'outcome': out.brief()}
